@@ -32,6 +32,12 @@ QUICK = [
                 "MaxN": "1", "MaxStk": "1", "MaxStmts": "2"}, None),      # let name :: constraint = value
     ("funcbody", {"Fam": "<- FamFuncBody", "LitPool": "<- Lits2", "Names": "<- Names2", "SigPool": "<- Sigs2",
                   "BinOps": "<- OpsFew", "MaxN": "4", "MaxStk": "2", "MaxCtx": "2", "MaxStmts": "2"}, None),   # define, then call
+    ("funcsel", {"Fam": "<- FamFuncSel", "LitPool": "<- Lits1", "Names": "<- Names2", "SigPool": "<- SigsTup",
+                 "BinOps": "<- Ops2", "FldNames": "<- Flds2", "MaxN": "8", "MaxD": "5", "MaxStk": "2", "MaxCtx": "2",
+                 "MaxStmts": "2"}, None),        # bodies that select fields / elements of a parameter
+    ("funcshadow", {"Fam": "<- FamFuncBody", "LitPool": "<- Lits2", "Names": "<- NamesBC", "SigPool": "<- Sigs2",
+                    "BinOps": "<- Ops2", "Prelude": "<- PreShadow", "MaxN": "4", "MaxStk": "2", "MaxCtx": "2",
+                    "MaxStmts": "2"}, None),     # parameters named like earlier bindings of another type
     ("misc", {"Fam": "<- FamMisc", "LitPool": "<- LitsFmt", "Names": "<- Names1", "BinOps": "<- Ops2",
               "TyNames": "<- TySome", "MaxN": "3", "MaxStk": "3", "MaxStmts": "1"}, None),
     ("cast", {"Fam": "<- FamCast", "LitPool": "<- LitsCast", "Names": "<- Names1", "BinOps": "<- Ops2",
